@@ -65,6 +65,12 @@ def bind_repo(need_codec=True):
         return
     if sys.path[0] != REPO:
         sys.path.insert(0, REPO)
+    # a helper may have imported the generated flatbuffer classes (ethosu.vela.tflite) before the tree was bound: if that resolved to
+    # another checkout (the editable install), forget it so that everything is imported from REPO
+    stale = [k for k, m_ in sys.modules.items() if (k == "ethosu" or k.startswith("ethosu.")) and
+             not any(os.path.realpath(p_).startswith(os.path.realpath(REPO) + os.sep) for p_ in (list(getattr(m_, "__path__", [])) or [getattr(m_, "__file__", "") or ""]))]
+    for k in stale:
+        del sys.modules[k]
     if need_codec:
         so = _build_codec()
         import ethosu  # namespace package
